@@ -366,12 +366,13 @@ impl DecoratorDef for SetHelper {
             .and_then(|p| p.value().as_str())
             .ok_or_else(|| other("sethelper"))?
             .to_string();
-        rc.register_local_helper(
-            &name,
-            Box::new(LocalHelper {
-                registered_name: name.clone(),
-            }),
-        );
+        // optional second parameter: the tag the local helper prints (default: its name)
+        let tag = d
+            .param(1)
+            .and_then(|p| p.value().as_str())
+            .map(|s| s.to_string())
+            .unwrap_or_else(|| name.clone());
+        rc.register_local_helper(&name, Box::new(LocalHelper { registered_name: tag }));
         Ok(())
     }
 }
